@@ -107,7 +107,17 @@ def judge(case, m):
     elif pat == "only-unused":
         for col in [c for c in df.columns if c not in used and meta.get(c, {}).get("kind") in ("num", "pos", "str")][:3]:
             blank(col, rng.choice(n, size=max(1, n // 2), replace=False))
-    case = {**case, "text": text, "used": used}
+    # the row filter must be positional: arbitrary (non-unique, non-sorted, non-integer) index
+    idx_kind = int(rng.integers(0, 4))
+    if idx_kind == 1:
+        lab = np.repeat(np.arange((n + 1) // 2), 2)[:n]
+        rng.shuffle(lab)
+        df.index = pd.Index(lab)
+    elif idx_kind == 2:
+        df.index = pd.Index([f"r{(i * 5) % max(1, n // 2)}" for i in range(n)])
+    elif idx_kind == 3:
+        df.index = pd.RangeIndex(n - 1, -1, -1)
+    case = {**case, "text": text, "used": used, "index_kind": idx_kind}
     m.current_case = case
     complete = df[used].notna().all(axis=1).to_numpy() if used else np.ones(n, bool)
     policy = case["policy"]
